@@ -842,6 +842,62 @@ Qed.
 
 (* THE THEOREM with call / tail: needs that every label comes from the program (labels0 = []) and a program below 2 GiB
    (the near / far test of call / tail wraps the distance to 32 bits) *)
+Lemma runs_related its c0 rA rB :
+  nonneg its -> total its < 2 ^ 31 ->
+  assemble_items its c0 [] false = Done rA -> assemble_items its c0 [] true = Done rB ->
+  exists consts i6A i6B alA alB finA finB,
+    grel i6A i6B /\ nonneg i6A /\ nonneg i6B /\
+    grouped (Rfin false consts) (resolve_register_aliases (filter not_const its) consts) i6A /\
+    NoDup (gnames (resolve_register_aliases (filter not_const its) consts)) /\
+    pgrouped Ralign 0 i6A alA /\ pgrouped Ralign 0 i6B alB /\ Forall2 same1 alA finA /\ Forall2 same1 alB finB /\
+    blobbed finA (r_chunks rA) /\ blobbed finB (r_chunks rB) /\ exact finA (r_labels rA) /\ exact finB (r_labels rB) /\
+    gnames finA = gnames its /\ gnames finB = gnames its.
+Proof.
+  intros Hn Hsz HA HB.
+  destruct (assemble_stages _ _ _ _ _ HA Hn) as (cA & lA & i3A & lab3A & i4A & lab4A & i6A & lab6A & alA & finA &
+                                                  A1 & A2 & A3 & A4 & A6 & N2A & N3A & N6A & D2A & X2A & X3A & PA & SA & BA & XA & GA).
+  destruct (assemble_stages _ _ _ _ _ HB Hn) as (cB & lB & i3B & lab3B & i4B & lab4B & i6B & lab6B & alB & finB &
+                                                  B1 & B2 & B3 & B4 & B6 & N2B & N3B & N6B & D2B & X2B & X3B & PB & SB & BB & XB & GB).
+  rewrite A1 in B1. inversion B1; subst cB. rewrite A2 in B2. inversion B2; subst lB.
+  set (i1 := filter not_const its) in *. set (i2 := resolve_register_aliases i1 cA) in *.
+  inversion A3; subst i3A lab3A. inversion A6; subst i6A lab6A.
+  (* the first compression pass of the compressed run: one item for one item, keys kept *)
+  pose proof (compress_groups true _ _ _ _ _ B3) as G3. pose proof (st_forall2 _ _ G3) as F2.
+  assert (K3 : map fst lab3B = map fst lA).
+  { unfold transform_compressible in B3.
+    destruct (gpass_exact _ (compress_rule_ok cA) _ _ _ _ N2A D2A X2A B3) as (_ & _ & K & _). exact K. }
+  (* the pseudo pass of both runs in lockstep *)
+  unfold transform_pseudo in A4, B4. rewrite gpass_gp in A4, B4.
+  destruct (gp (pseudo_rule cA) i2 0 lA) as [[oA lsA']| |] eqn:EA; cbn [obind] in A4; try discriminate.
+  destruct (gp (pseudo_rule cA) i3B 0 lab3B) as [[oB lsB']| |] eqn:EB; cbn [obind] in B4; try discriminate.
+  cbn [rev app fst snd] in A4, B4. inversion A4; subst i4A lab4A. inversion B4; subst i4B lab4B.
+  assert (T2 : total i2 = total its).
+  { unfold i2. rewrite <- (same_total _ _ (aliases_same i1 cA)). apply filter_total. }
+  assert (H1 : ahead i2 0 lA) by (intros L q Hg; rewrite (X2A L q Hg); f_equal).
+  assert (H2 : ahead i3B 0 lab3B) by (intros L q Hg; rewrite (X3B L q Hg); f_equal).
+  assert (H3 : behind i2 0 0 lA lab3B).
+  { intros L Hnin a b Ea _. exfalso.
+    assert (Hn1 : ~ In L (gnames i1)).
+    { intro Hi. apply Hnin. unfold i2. rewrite <- (same_gnames _ _ (aliases_same i1 cA)). exact Hi. }
+    unfold resolve_labels in A2. rewrite (rlf_other _ _ _ _ _ L A2 Hn1) in Ea. discriminate. }
+  assert (H4 : samedom lA lab3B) by (intro L; symmetry; apply keys_none; exact K3).
+  assert (H5 : 0 + total i3B < 2 ^ 31) by (pose proof (relAB_total _ _ F2); lia).
+  assert (H6 : 0 + total i2 < 2 ^ 31) by lia.
+  pose proof (lockstep cA i2 i3B F2 0 0 lA lab3B oA oB lsA' lsB' N2A N3B D2A H1 H2 H3 H4 ltac:(lia) ltac:(lia) H6 H5 EA EB) as GR4.
+  (* alias resolution (both) and the second compression pass (compressed run) keep the pairing *)
+  pose proof (aliases_st oA cA) as SA5. pose proof (aliases_st oB cA) as SB5.
+  pose proof (compress_groups true _ _ _ _ _ B6) as SB6.
+  assert (SB56 : grouped (Rst true) oB i6B).
+  { eapply grouped_trans; [|exact SB5|exact SB6]. intros x g h Hx1 Hx2. exact (st_st false true x g h Hx1 Hx2). }
+  pose proof (grel_st true _ _ GR4 _ _ SA5 SB56 N6B) as GR.
+  assert (E4A : transform_pseudo i2 cA lA = Done (oA, lsA')).
+  { unfold transform_pseudo. rewrite gpass_gp, EA. reflexivity. }
+  pose proof (run_groups false cA lA i2 i2 lA oA lsA' (resolve_register_aliases oA cA) lsA' eq_refl E4A eq_refl) as RA.
+  exists cA, (resolve_register_aliases oA cA), i6B, alA, alB, finA, finB.
+  repeat (split; [first [exact GR | exact N6A | exact N6B | exact RA | exact D2A | exact PA | exact PB | exact SA | exact SB
+                        | exact BA | exact BB | exact XA | exact XB | exact GA ]|]). exact GB.
+Qed.
+
 Theorem compression_monotone_all its c0 rA rB :
   nonneg its -> total its < 2 ^ 31 ->
   assemble_items its c0 [] false = Done rA -> assemble_items its c0 [] true = Done rB ->
@@ -899,4 +955,172 @@ Proof.
     destruct (aoff L 0 i6B) as [y|] eqn:Fb; try discriminate.
     simpl in Qa, Qb. inversion Qa; inversion Qb; subst. specialize (M2 _ _ _ Fa Fb). lia.
   - rewrite <- (blobbed_total _ _ BA), <- (blobbed_total _ _ BB), <- (same_total _ _ SA), <- (same_total _ _ SB). lia.
+Qed.
+
+(* ---- part 5: without an align between them, compression never moves two labels APART (K1 needs the align) ------------------- *)
+Fixpoint no_align (its : list litem) : bool :=
+  match its with [] => true | (_, IAlign _) :: _ => false | _ :: r => no_align r end.
+Lemma no_align_app a b : no_align (app a b) = no_align a && no_align b.
+Proof. induction a as [|[l it] a IH]; simpl; auto. destruct it; auto. Qed.
+
+(* relative offsets: from ANY two starting offsets, the compressed list reaches a label after at most as many bytes *)
+Lemma grel_relative a b : grel a b -> no_align a = true -> forall pa pb L x y,
+  aoff L pa a = Some x -> aoff L pb b = Some y -> 0 <= y - pb <= x - pa.
+Proof.
+  induction 1 as [|l l' n a b _ IH|l l' n a b Hn _ IH|ga gb a b Pa Pb Ht _ IH]; intros Hna pa pb L x y Hx Hy.
+  - discriminate.
+  - cbn [aoff is_label] in Hx, Hy. destruct (String.eqb L n).
+    + inversion Hx; inversion Hy; subst. lia.
+    + eapply IH; eauto.
+  - discriminate.
+  - rewrite no_align_app in Hna. apply andb_prop in Hna. destruct Hna as [_ Hna].
+    rewrite aoff_plain in Hx, Hy by assumption.
+    specialize (IH Hna _ _ _ _ _ Hx Hy). lia.
+Qed.
+(* the part of the list behind a label marker *)
+Fixpoint after (L : string) (its : list litem) : list litem :=
+  match its with
+  | [] => []
+  | (l, it) :: r => match is_label it with Some n => if String.eqb L n then r else after L r | None => after L r end
+  end.
+Lemma grel_after L a b : grel a b -> grel (after L a) (after L b).
+Proof.
+  induction 1 as [|l l' n a b H IH|l l' n a b Hn H IH|ga gb a b Pa Pb Ht H IH]; cbn [after is_label]; auto.
+  - constructor.
+  - destruct (String.eqb L n); auto.
+  - assert (A : forall g r, Forall plain1 g -> after L (app g r) = after L r).
+    { induction 1 as [|[l0 it0] g [P1 _] _ IHg]; cbn [app after]; auto. cbn [snd] in P1. rewrite P1. exact IHg. }
+    rewrite !A by assumption. exact IH.
+Qed.
+Lemma no_align_after L a : no_align a = true -> no_align (after L a) = true.
+Proof.
+  induction a as [|[l it] a IH]; cbn [after no_align]; auto.
+  destruct it; cbn [is_label]; intro H; try (apply IH; exact H); try discriminate.
+  destruct (String.eqb L name); auto.
+Qed.
+Lemma gnames_after L a : incl (gnames (after L a)) (gnames a).
+Proof.
+  induction a as [|[l it] a IH]; cbn [after gnames]. apply incl_refl.
+  destruct (is_label it) as [n|].
+  - destruct (String.eqb L n). apply incl_tl, incl_refl. apply incl_tl. exact IH.
+  - exact IH.
+Qed.
+Lemma grel_gnames a b : grel a b -> gnames a = gnames b.
+Proof.
+  induction 1 as [|l l' n a b _ IH|l l' n a b Hn _ IH|ga gb a b Pa Pb Ht _ IH]; cbn [gnames is_label]; auto.
+  - f_equal. exact IH.
+  - assert (A : forall g r, Forall plain1 g -> gnames (app g r) = gnames r).
+    { induction 1 as [|[l0 it0] g [P1 _] _ IHg]; cbn [app gnames]; auto. cbn [snd] in P1. rewrite P1. exact IHg. }
+    rewrite !A by assumption. exact IH.
+Qed.
+(* the offset of a label that stands behind another one, computed from the marker of the first *)
+Lemma aoff_after L1 L2 a : NoDup (gnames a) -> In L2 (gnames (after L1 a)) -> forall p x1,
+  aoff L1 p a = Some x1 -> aoff L2 p a = aoff L2 x1 (after L1 a).
+Proof.
+  induction a as [|[l it] a IH]; intros Hnd Hin p x1 H1. contradiction.
+  cbn [after aoff gnames] in *. destruct (is_label it) as [n|] eqn:El.
+  - inversion Hnd as [|? ? N1 N2]; subst. destruct (String.eqb L1 n) eqn:E1.
+    + inversion H1; subst x1. destruct (String.eqb L2 n) eqn:E2; [|reflexivity].
+      apply String.eqb_eq in E2. subst. contradiction.
+    + destruct (String.eqb L2 n) eqn:E2.
+      * apply String.eqb_eq in E2. subst. exfalso. apply N1. apply (gnames_after L1 a). exact Hin.
+      * apply IH; auto.
+  - apply IH; auto.
+Qed.
+
+Theorem labels_never_apart a b : grel a b -> no_align a = true -> NoDup (gnames a) ->
+  forall L1 L2 pa pb x1 x2 y1 y2, In L2 (gnames (after L1 a)) ->
+  aoff L1 pa a = Some x1 -> aoff L2 pa a = Some x2 -> aoff L1 pb b = Some y1 -> aoff L2 pb b = Some y2 ->
+  0 <= y2 - y1 <= x2 - x1.
+Proof.
+  intros G Hna Hnd L1 L2 pa pb x1 x2 y1 y2 Hin A1 A2 B1 B2.
+  pose proof (grel_after L1 _ _ G) as G'. pose proof (grel_gnames _ _ G) as EG. pose proof (grel_gnames _ _ G') as EG'.
+  rewrite (aoff_after L1 L2 a Hnd Hin pa x1 A1) in A2.
+  assert (Hnd' : NoDup (gnames b)) by (rewrite <- EG; exact Hnd).
+  assert (Hin' : In L2 (gnames (after L1 b))) by (rewrite <- EG'; exact Hin).
+  rewrite (aoff_after L1 L2 b Hnd' Hin' pb y1 B1) in B2.
+  exact (grel_relative _ _ G' (no_align_after L1 a Hna) x1 y1 L2 x2 y2 A2 B2).
+Qed.
+
+Lemma fin_no_align le consts s a : grouped (Rfin le consts) s a -> no_align s = true -> no_align a = true.
+Proof.
+  induction 1 as [|[l it] r bs bs' Hx _ IH]; intro Hn. reflexivity.
+  rewrite no_align_app. unfold Rfin in Hx. cbn [fst snd] in Hx.
+  assert (Hr : no_align r = true) by (destruct it; simpl in Hn; auto; discriminate).
+  rewrite (IH Hr), andb_true_r.
+  destruct it; try (subst bs; simpl in *; auto; fail).
+  - destruct Hx as (y & -> & [_ (c1 & n1 & f1 & k1 & E)] & _). destruct y as [ly iy]. cbn [snd] in E. subst iy. reflexivity.
+  - destruct Hx as [F _]. clear - F. induction F as [|[ly iy] g [_ (c1 & n1 & f1 & k1 & E)] _ IHg]. reflexivity.
+    cbn [snd] in E. subst iy. exact IHg.
+Qed.
+Lemma pre_no_align its consts : no_align its = true -> no_align (resolve_register_aliases (filter not_const its) consts) = true.
+Proof.
+  unfold resolve_register_aliases. induction its as [|[l it] r IH]; simpl; auto.
+  unfold not_const at 1. cbn [snd]. destruct it; simpl; auto; try discriminate.
+Qed.
+Lemma after_total L1 L2 a : NoDup (gnames a) -> In L1 (gnames a) -> In L2 (gnames a) -> L1 <> L2 ->
+  In L2 (gnames (after L1 a)) \/ In L1 (gnames (after L2 a)).
+Proof.
+  induction a as [|[l it] a IH]; intros Hnd H1 H2 Hne. contradiction.
+  cbn [gnames after] in *. destruct (is_label it) as [n|].
+  - inversion Hnd as [|? ? N1 N2]; subst.
+    destruct (String.eqb L1 n) eqn:E1.
+    + apply String.eqb_eq in E1. subst n. left. destruct H2 as [H2|H2]; [congruence|exact H2].
+    + destruct (String.eqb L2 n) eqn:E2.
+      * apply String.eqb_eq in E2. subst n. right. destruct H1 as [H1|H1]; [congruence|exact H1].
+      * apply IH; auto.
+        destruct H1 as [H1|H1]; auto. subst. rewrite String.eqb_refl in E1. discriminate.
+        destruct H2 as [H2|H2]; auto. subst. rewrite String.eqb_refl in E2. discriminate.
+  - apply IH; auto.
+Qed.
+
+Lemma align_gnames a : forall p b, pgrouped Ralign p a b -> nonneg a -> gnames b = gnames a.
+Proof.
+  induction a as [|[l it] r IH]; intros p b G Hn.
+  - inversion G; subst. reflexivity.
+  - inversion G as [|? ? ? bs bs' Hx G']; subst. inversion Hn as [|? ? Hw Hn']; subst.
+    unfold Ralign in Hx. cbn [fst snd] in Hx.
+    assert (Hc : (exists n, it = IAlign n) \/ (forall n, it <> IAlign n)) by (destruct it; eauto; right; discriminate).
+    destruct Hc as [[n ->]|Hna].
+    + destruct Hw as [_ Hw]. destruct (Hx (Hw n eq_refl)) as (Eb & _). cbn [gnames is_label].
+      rewrite gnames_app_nolabel. apply (IH _ _ G' Hn'). rewrite Eb. destruct (_ =? 0)%Z; repeat constructor.
+    + assert (bs = [(l, it)]) as -> by (destruct it; auto; exfalso; eapply Hna; reflexivity).
+      cbn [app gnames]. rewrite (IH _ _ G' Hn'). reflexivity.
+Qed.
+
+(* K1 needs the align: in a program WITHOUT align directives, compression never moves two labels apart *)
+Theorem compression_labels_never_apart its c0 rA rB :
+  nonneg its -> total its < 2 ^ 31 -> no_align its = true ->
+  assemble_items its c0 [] false = Done rA -> assemble_items its c0 [] true = Done rB ->
+  forall L1 L2 a1 a2 b1 b2, In L1 (gnames its) -> In L2 (gnames its) ->
+    assoc_str L1 (r_labels rA) = Some a1 -> assoc_str L2 (r_labels rA) = Some a2 ->
+    assoc_str L1 (r_labels rB) = Some b1 -> assoc_str L2 (r_labels rB) = Some b2 ->
+    Z.abs (b2 - b1) <= Z.abs (a2 - a1) /\ (a1 <= a2 -> b1 <= b2 \/ a1 = a2).
+Proof.
+  intros Hn Hsz Hna HA HB L1 L2 a1 a2 b1 b2 I1 I2 EA1 EA2 EB1 EB2.
+  destruct (runs_related _ _ _ _ Hn Hsz HA HB) as (consts & i6A & i6B & alA & alB & finA & finB &
+    GR & N6A & N6B & RA & D2 & PA & PB & SA & SB & BA & BB & XA & XB & GA & GB).
+  set (i2 := resolve_register_aliases (filter not_const its) consts) in *.
+  assert (NA6 : no_align i6A = true) by (eapply fin_no_align; [exact RA|apply pre_no_align; exact Hna]).
+  destruct (align_layout _ _ _ PA N6A) as (_ & OA). destruct (align_layout _ _ _ PB N6B) as (_ & OB).
+  (* the offsets in the lists in front of the alignment pass *)
+  assert (FA : forall L a, In L (gnames its) -> assoc_str L (r_labels rA) = Some a -> aoff L 0 i6A = Some a).
+  { intros L a Hin E. assert (In L (gnames finA)) as Hf by (rewrite GA; exact Hin).
+    destruct (in_goff _ _ Hf) as [q Q]. pose proof (XA _ _ Q) as E'. rewrite E in E'. inversion E'; subst q.
+    rewrite <- (same_goff L _ _ SA), OA in Q. destruct (aoff L 0 i6A) as [x|]; [|discriminate]. simpl in Q. inversion Q. f_equal. lia. }
+  assert (FB : forall L b, In L (gnames its) -> assoc_str L (r_labels rB) = Some b -> aoff L 0 i6B = Some b).
+  { intros L b Hin E. assert (In L (gnames finB)) as Hf by (rewrite GB; exact Hin).
+    destruct (in_goff _ _ Hf) as [q Q]. pose proof (XB _ _ Q) as E'. rewrite E in E'. inversion E'; subst q.
+    rewrite <- (same_goff L _ _ SB), OB in Q. destruct (aoff L 0 i6B) as [x|]; [|discriminate]. simpl in Q. inversion Q. f_equal. lia. }
+  pose proof (FA _ _ I1 EA1) as X1. pose proof (FA _ _ I2 EA2) as X2. pose proof (FB _ _ I1 EB1) as Y1. pose proof (FB _ _ I2 EB2) as Y2.
+  destruct (string_dec L1 L2) as [->|Hne].
+  { rewrite X1 in X2. rewrite Y1 in Y2. inversion X2; inversion Y2; subst. split. lia. intros _. left. lia. }
+  (* gnames of the list in front of the alignment pass = gnames of the program *)
+  assert (G6 : gnames i6A = gnames its) by (rewrite <- GA, <- (same_gnames _ _ SA); symmetry; eapply align_gnames; eauto).
+  assert (ND6 : NoDup (gnames i6A)).
+  { rewrite G6. unfold i2 in D2. rewrite <- (same_gnames _ _ (aliases_same (filter not_const its) consts)), filter_gnames in D2. exact D2. }
+  assert (I1' : In L1 (gnames i6A)) by (rewrite G6; exact I1). assert (I2' : In L2 (gnames i6A)) by (rewrite G6; exact I2).
+  destruct (after_total L1 L2 i6A ND6 I1' I2' Hne) as [Haf|Haf].
+  - pose proof (labels_never_apart _ _ GR NA6 ND6 L1 L2 0 0 a1 a2 b1 b2 Haf X1 X2 Y1 Y2). split. lia. intros _. left. lia.
+  - pose proof (labels_never_apart _ _ GR NA6 ND6 L2 L1 0 0 a2 a1 b2 b1 Haf X2 X1 Y2 Y1). split. lia. intros Hle. right. lia.
 Qed.
